@@ -4,12 +4,14 @@ package main
 // canonical projection of uGO values, shared by the C01/C02/C10/C12/C13 replays.
 
 import (
+	"bytes"
 	"encoding/json"
 	"fmt"
 	"sort"
 	"strings"
 
 	"github.com/ozanh/ugo"
+	"github.com/ozanh/ugo/encoder"
 )
 
 type N = map[string]any
@@ -325,12 +327,15 @@ type semExp struct {
 	Globals any   `json:"globals"`
 }
 type semCase struct {
-	MayRefuse bool    `json:"mayrefuse"`
-	RefKnown  *bool   `json:"refknown"`
-	Fam       string  `json:"fam"`
-	ID        any     `json:"id"`
-	Prog      semProg `json:"prog"`
-	Exp       semExp  `json:"exp"`
+	MayRefuse  bool    `json:"mayrefuse"`
+	RefKnown   *bool   `json:"refknown"`
+	Refused    bool    `json:"refused"`
+	RefOpt     bool    `json:"refopt"`
+	ModRefused bool    `json:"modrefused"`
+	Fam        string  `json:"fam"`
+	ID         any     `json:"id"`
+	Prog       semProg `json:"prog"`
+	Exp        semExp  `json:"exp"`
 }
 
 func semValueObj(v N) ugo.Object {
@@ -363,22 +368,40 @@ func semExpected(e semExp) string {
 }
 
 type semCfg struct {
-	Name string
-	Opts ugo.CompilerOptions
+	Name      string
+	Opts      ugo.CompilerOptions
+	RoundTrip bool // encode + decode the bytecode before running
+	Twice     bool // run twice on the same VM, observe the second run
 }
 
 func semConfigs(names []string) []semCfg {
 	var out []semCfg
-	for _, n := range names {
+	for _, full := range names {
+		n := full
+		rt, twice := false, false
+		for strings.Contains(n, "+") {
+			i := strings.LastIndex(n, "+")
+			switch n[i+1:] {
+			case "rt":
+				rt = true
+			case "twice":
+				twice = true
+			}
+			n = n[:i]
+		}
+		k := len(out)
 		switch {
 		case n == "default":
-			out = append(out, semCfg{n, ugo.CompilerOptions{}})
+			out = append(out, semCfg{Name: n, Opts: ugo.CompilerOptions{}})
 		case n == "noopt":
-			out = append(out, semCfg{n, ugo.CompilerOptions{NoOptimize: true}})
+			out = append(out, semCfg{Name: n, Opts: ugo.CompilerOptions{NoOptimize: true}})
 		case strings.HasPrefix(n, "limit"):
-			k := 0
-			fmt.Sscan(n[5:], &k)
-			out = append(out, semCfg{n, ugo.CompilerOptions{OptimizerLimit: k}})
+			lim := 0
+			fmt.Sscan(n[5:], &lim)
+			out = append(out, semCfg{Name: n, Opts: ugo.CompilerOptions{OptimizerLimit: lim}})
+		}
+		for ; k < len(out); k++ {
+			out[k].Name, out[k].RoundTrip, out[k].Twice = full, rt, twice
 		}
 	}
 	return out
@@ -393,14 +416,17 @@ func moduleMapOf(p semProg) *ugo.ModuleMap {
 		}
 		sort.Strings(ks)
 		for _, k := range ks {
-			mm.AddSourceModule(k, []byte(semSource(seqOf(m[k]), false)))
+			// the reference semantics logs "load:<name>" when a module body starts executing
+			src := fmt.Sprintf("global log\nlog = append(log, %q)\nL := func(v) { log = append(log, v) }\n", "load:"+k) + semBlock(seqOf(m[k]), "")
+			mm.AddSourceModule(k, []byte(src))
 		}
 	}
 	return mm
 }
 
 // semRun compiles and runs a program under opts; returns the canonical observation.
-func semRun(p semProg, opts ugo.CompilerOptions, src string) (obs string, compileErr error, panicked any) {
+func semRun(p semProg, cf semCfg, src string) (obs string, compileErr error, panicked any) {
+	opts := cf.Opts
 	defer func() {
 		if r := recover(); r != nil {
 			panicked = r
@@ -420,17 +446,40 @@ func semRun(p semProg, opts ugo.CompilerOptions, src string) (obs string, compil
 	if err != nil {
 		return "", err, nil
 	}
-	g := ugo.Map{"log": ugo.Array{}}
-	if m, ok := p.Globals.(map[string]any); ok {
-		for k, v := range m {
-			g[k] = semValueObj(v.(N))
-		}
+	if ref := builtinRefs(bc, p.Disabled); ref != "" {
+		return "BUILTINREF: " + ref, nil, nil
 	}
+	if cf.RoundTrip {
+		var buf bytes.Buffer
+		if err := encoder.EncodeBytecodeTo(bc, &buf); err != nil {
+			return "ENCODE: " + err.Error(), nil, nil
+		}
+		bc2, err := encoder.DecodeBytecodeFrom(&buf, opts.ModuleMap)
+		if err != nil {
+			return "DECODE: " + err.Error(), nil, nil
+		}
+		bc = bc2
+	}
+	mkGlobals := func() ugo.Map {
+		g := ugo.Map{"log": ugo.Array{}}
+		if m, ok := p.Globals.(map[string]any); ok {
+			for k, v := range m {
+				g[k] = semValueObj(v.(N))
+			}
+		}
+		return g
+	}
+	g := mkGlobals()
 	var args []ugo.Object
 	for _, a := range p.Args {
 		args = append(args, semValueObj(a.(N)))
 	}
-	ret, rerr := ugo.NewVM(bc).Run(g, args...)
+	vm := ugo.NewVM(bc)
+	ret, rerr := vm.Run(g, args...)
+	if cf.Twice {
+		g = mkGlobals()
+		ret, rerr = vm.Run(g, args...)
+	}
 	var o []any
 	if rerr != nil {
 		if re, ok := rerr.(*ugo.RuntimeError); ok {
@@ -451,6 +500,37 @@ func semRun(p semProg, opts ugo.CompilerOptions, src string) (obs string, compil
 	return canonS([]any{o, logv, gl}), nil, nil
 }
 
+// builtinRefs scans every compiled function for a GETBUILTIN of a disabled name.
+func builtinRefs(bc *ugo.Bytecode, disabled []any) string {
+	if len(disabled) == 0 {
+		return ""
+	}
+	dis := map[ugo.BuiltinType]string{}
+	for _, d := range disabled {
+		if bt, ok := ugo.BuiltinsMap[d.(string)]; ok {
+			dis[bt] = d.(string)
+		}
+	}
+	found := ""
+	scan := func(cf *ugo.CompiledFunction) {
+		ugo.IterateInstructions(cf.Instructions, func(pos int, op ugo.Opcode, operands []int, _ int) bool {
+			if op == ugo.OpGetBuiltin {
+				if n, ok := dis[ugo.BuiltinType(operands[0])]; ok {
+					found = n
+				}
+			}
+			return true
+		})
+	}
+	scan(bc.Main)
+	for _, c := range bc.Constants {
+		if cf, ok := c.(*ugo.CompiledFunction); ok {
+			scan(cf)
+		}
+	}
+	return found
+}
+
 func init() {
 	// sem <cases.ndjson> <results.ndjson> cfg1,cfg2,...
 	subs["sem"] = func(args []string) error {
@@ -467,11 +547,11 @@ func init() {
 			}
 			src := semSource(c.Prog.Body, true)
 			want := semExpected(c.Exp)
-			r := N{"fam": c.Fam, "id": c.ID, "src": src, "want": want, "mayrefuse": c.MayRefuse, "refknown": c.RefKnown == nil || *c.RefKnown}
+			r := N{"fam": c.Fam, "id": c.ID, "src": src, "want": want, "mayrefuse": c.MayRefuse, "refknown": c.RefKnown == nil || *c.RefKnown, "refused": c.Refused, "refopt": c.RefOpt, "modrefused": c.ModRefused}
 			got := N{}
 			ok := true
 			for _, cf := range cfgs {
-				obs, cerr, pan := semRun(c.Prog, cf.Opts, src)
+				obs, cerr, pan := semRun(c.Prog, cf, src)
 				switch {
 				case pan != nil:
 					got[cf.Name] = fmt.Sprint("PANIC: ", pan)
